@@ -3,7 +3,7 @@
    structure lists distinct non-negative features (what `grp_indices` is by construction). *)
 From Coq Require Import Reals Lra Lia ZArith List Bool.
 Require Import SK.Base.Res SK.Base.Num SK.Base.RInst SK.Lemmas.VecFacts SK.Lemmas.Loops SK.Lemmas.Csc SK.Lemmas.Consistency
-               SK.Lemmas.BcdEpoch.
+               SK.Lemmas.BcdBase.
 Require Import SK.Gen.KernBCD.
 Import ListNotations.
 Local Open Scope R_scope.
